@@ -1,5 +1,6 @@
 -- REGENERATED from src/core/build_env.go, src/core/config.go, src/fs/home.go, src/process/*.go, src/build/build_step.go by /verif/harness/extract/c10 on every run. Do not edit.
 namespace PlzVerif.Generated.C10
+def userEnvSorted : Bool := true
 def envReads : List (String × String × String × String) := [
   ("src/core/build_env.go", "TargetEnvironment", "os.Getenv", "<var>"),
   ("src/core/build_env.go", "TargetEnvironment", "os.Getenv", "<var>"),
